@@ -960,6 +960,20 @@ fn family_parse(deep: bool) {
               format!("@name: i{huge}; x"), format!("@k: [i{huge}]; x"), format!("// r\n@m: {{a: d{huge}}}; x")] {
         try_parse(&mut rep, &t);
     }
+    // "an integer or decimal literal or a list index that is out of range is reported as a parse error": must be Err, in every radix;
+    // the hex / octal forms use only digits that are also valid in a smaller radix, where the same text would be in range
+    let z = |n: usize| "0".repeat(n);
+    for t in [format!("i{huge}"), format!("i-{huge}"), "i170141183460469231731687303715884105728".to_string(), "i-170141183460469231731687303715884105729".to_string(),
+              format!("0x8{}", z(31)), format!("0x1{}", z(32)), format!("0o2{}", z(42)), format!("0o1{}", z(43)), format!("0b1{}", z(127)),
+              format!("d{huge}"), "d79228162514264337593543950336".to_string(), "a.18446744073709551616".to_string(), format!("a.{huge}"),
+              format!("[i1, 0x1{}]", z(32)), format!("f1 + 0o1{}", z(43))] {
+        rep.cases += 1;
+        match catch_unwind(AssertUnwindSafe(|| Expr::parse(&t).is_err())) {
+            Ok(true) => {}
+            Ok(false) => rep.fail(&["C06"], "Expr::parse", &t, "Ok(tree)", "Err(parse error): the literal is out of range"),
+            Err(_) => rep.fail(&["C06"], "Expr::parse", &t, "PANIC", "Err(parse error)"),
+        }
+    }
     // numerals of every length in every numeric position (mantissa / fraction / exponent / index)
     for k in 1..=45usize {
         let nines = "9".repeat(k);
